@@ -1,8 +1,9 @@
 (* C10 -- Rejections are always reported as SyntaxError at the first offending token.
    Statements only. *)
 From Coq Require Import NArith List Bool.
-From PV Require Import Spec.Cfg Model.Table Model.LRDriver Validators.TableStruct Validators.TableProgress
-  Model.Errors Proofs.ErrorsProofs Proofs.LRNoCrashProofs.
+From PV Require Import Spec.Cfg Model.Table Spec.NLR Model.LRDriver Validators.TableStruct Validators.TableProgress
+  Validators.ItemsSound Validators.TableComplete Model.Errors Proofs.ErrorsProofs Proofs.LRNoCrashProofs
+  Proofs.LRProofs Proofs.LRTraceProofs Proofs.ViablePrefixProofs Proofs.LRErrorProofs.
 Import ListNotations.
 Local Open Scope N_scope.
 
@@ -35,10 +36,60 @@ Theorem C10_lr_no_crash :
 Proof. exact lr_no_crash. Qed.
 Print Assumptions C10_lr_no_crash.
 
-(* NOT PROVED (partial; decided per generated case against an Earley reference): the error
-   position is the start of the first token that cannot extend any sentence prefix, it is the
-   same for LR/GLR and LALR/SLR, GLR's symbols_expected are exactly the terminals that may
-   come next, and no exception other than SyntaxError escapes GLRParser.parse. *)
+(* the correct-prefix property of the LR machine of any table that passes table_struct and
+   items_sound (both run on the impl's real tables with the impl's own item sets): in EVERY
+   reachable configuration -- whatever the scanner, the layout, the lookahead and the conflict
+   strategy -- the tokens shifted so far are the beginning of a sentence of the grammar.  An LR
+   parser therefore never moves past a token that cannot continue a sentence. *)
+Theorem C10_viable_prefix :
+  forall g tb start look pos d c,
+    table_struct g tb start = true -> items_sound g tb = true ->
+    nsteps g tb look (init_cfg pos d) c ->
+    exists t suffix, wf_tree g t /\ root_sym g t = Some (NT start) /\
+                     leaves t = c_trace c ++ suffix.
+Proof. intros g tb start look pos d c Hts His. exact (viable_prefix g tb start look Hts His pos d c). Qed.
+Print Assumptions C10_viable_prefix.
+
+(* SyntaxError at the first offending token, LR driver, consume_input on: when lr_parse ends in
+   LRSyntaxError p st there is a list tr of tokens -- those shifted before the error; with the
+   layout recorded for each they tile the input from the start position, and layout skipping
+   after the last of them stops at p -- such that tr is the beginning of a sentence, and, the
+   table being deterministic and passing table_complete, either the scanner found no token at p
+   in state st, or the lookahead token (y, len) at p has no action in st and no derivation tree
+   of the grammar has the leaves tr followed by that token (for STOP: tr is not a sentence). *)
+Theorem C10_lr_error_at_first_offending_token :
+  forall g tb ann fst_tab nul_tab stop_id start skipws next_token fuel pos0 p st,
+    table_struct g tb start = true -> items_sound g tb = true ->
+    table_complete g tb ann fst_tab nul_tab stop_id = true -> det_table tb = true ->
+    lr_parse g tb skipws next_token stop_id true false fuel pos0 = LRSyntaxError p st ->
+    exists tr,
+      tiles skipws pos0 tr /\ skipws (last_end pos0 tr) = Some p /\
+      (exists t suffix, wf_tree g t /\ root_sym g t = Some (NT start) /\ leaves t = strip tr ++ suffix) /\
+      (next_token st p = TNone \/
+       exists y len, cell tb st y = [] /\
+         forall t, wf_tree g t -> root_sym g t = Some (NT start) ->
+           ~ (if y =? stop_id then leaves t = strip tr
+              else exists rest, leaves t = strip tr ++ (y, p, p + len) :: rest)).
+Proof. exact lr_error_first_offending. Qed.
+Print Assumptions C10_lr_error_at_first_offending_token.
+
+(* NOT PROVED (partial; decided per generated case against an Earley reference): the same for
+   tables with resolved conflicts and for GLR, that the position is the same for LR/GLR and
+   LALR/SLR, that GLR's symbols_expected are exactly the terminals that may come next, and that
+   no exception other than SyntaxError escapes GLRParser.parse. *)
 
 Example C10_nonvacuous : pos_to_line_col [97; 10; 98; 99; 10; 100] 4 = (2, 2) /\ is_eof [97] 1 = true.
 Proof. vm_compute. split; reflexivity. Qed.
+
+(* non-vacuity of the error theorem: S' -> S ; S -> 'a' ; the empty input is rejected at 0 *)
+Definition g10 : grammar := [mkProd 0 [NT 1]; mkProd 1 [T 0]].
+Definition tb10 : table :=
+  [ mkState (NT 0) [(0, [Shift 2%nat])] [(1, 1%nat)] [true] [(0, 0%nat); (1, 0%nat)];
+    mkState (NT 1) [(1, [Accept])] [] [false] [(0, 1%nat)];
+    mkState (T 0) [(1, [Reduce 1])] [] [false] [(1, 1%nat)] ].
+Example C10_error_nonvacuous :
+  table_struct g10 tb10 1 = true /\ items_sound g10 tb10 = true /\ det_table tb10 = true /\
+  table_complete g10 tb10 [ [(0, 0%nat, []); (1, 0%nat, [1])]; [(0, 1%nat, [])]; [(1, 1%nat, [1])] ]
+                 [[0]; [0]] [false; false] 1 = true /\
+  lr_parse g10 tb10 (fun p => Some p) (fun st p => TTok 1 0) 1 true false 10 0 = LRSyntaxError 0 0.
+Proof. repeat split; vm_compute; reflexivity. Qed.
